@@ -14,7 +14,7 @@ CACHE = os.path.join(core.BUILD, "oracle_cache")
 
 def oracle_compile(version, name, source, oracles):
     os.makedirs(CACHE, exist_ok=True)
-    key = hashlib.sha1(("%s|%s|%s|v6" % (version, name, source)).encode()).hexdigest()[:20]
+    key = hashlib.sha1(("%s|%s|%s|v7" % (version, name, source)).encode()).hexdigest()[:20]
     path = os.path.join(CACHE, "%d.%d-%s.json" % (version[0], version[1], key))
     if os.path.exists(path):
         return json.load(open(path))
